@@ -697,3 +697,112 @@ def run(ctx) -> None:  # noqa: F811
               "tolerance of _validate_slice_thickness, an atom in the gap below the cell top is in no slice",
               key_detail="covertop")
     _inner_run_c09c(ctx)
+
+
+# ---- added after the mutation sweep: the z padding of SlicedAtoms only widens the membership interval
+_inner_run_c09d = run
+
+
+def run(ctx) -> None:  # noqa: F811
+    import ast as _ast
+
+    from ..cfg import DataFlow as _DF
+    from ..model import dotted as _dotted, norm_text as _nt, walk_no_nested as _walk
+    from ..terms import FlowNormalizer as _FN, Poly as _Poly
+
+    ctx.rule("R-PADSIGN", "SlicedAtoms.get_atoms_in_slices compares z with (entrance + r_lo) and (exit + r_hi), where "
+             "entrance/exit are the slice limits and r_lo, r_hi the remaining terms (the z padding of a finite "
+             "projection): r_lo == -r_hi and r_hi has positive coefficients only, i.e. the padding widens the interval "
+             "symmetrically.  A lower limit entrance + padding excludes the atoms in [entrance, entrance + padding) "
+             "from their own slice: they belong to no slice with their core, and the potential is not conserved")
+    from ..rules import deferred as _deferred
+
+    def new():
+        f = ctx.repo.method(MOD, "SlicedAtoms", "get_atoms_in_slices")
+        df = _DF(f.node)
+        rem = {}
+        site = {}
+        for c in _walk(f.node):
+            if not (isinstance(c, _ast.Compare) and len(c.ops) == 1 and isinstance(c.ops[0], (_ast.Lt, _ast.LtE, _ast.Gt, _ast.GtE))):
+                continue
+            at = df.cfg.node_of(_stmt_containing(f.node, c)).idx
+            sides = [c.left, c.comparators[0]]
+            zs = [any(_dotted(n) and _dotted(n).endswith("positions") for n in _ast.walk(_inline(df, at, s))) for s in sides]
+            if zs[0] == zs[1]:
+                continue
+            other = sides[1] if zs[0] else sides[0]
+            p = _FN(df, at).norm(other)
+            lim = _Poly({m: v for m, v in p.terms.items() if any("slice_limits" in a for a, _ in m)})
+            r = p - lim
+            if not lim.is_monomial():
+                raise AnalysisError(f"{f.qualname}: limit `{_nt(other)[:50]}` is not one slice limit plus a remainder")
+            (mono, coef), = lim.terms.items()
+            names = [a for a, _ in mono if "slice_limits" in a]
+            if coef != 1 or len(mono) != 1 or not names[0].endswith(("[0]", "[1]")):
+                raise AnalysisError(f"{f.qualname}: cannot tell which slice limit `{_nt(other)[:50]}` is")
+            which = "lower" if names[0].endswith("[0]") else "upper"
+            rem[which], site[which] = r, c
+        ctx.require(set(rem) == {"lower", "upper"}, f"{f.qualname}: the two comparisons of z with the slice limits were not found")
+        lo, hi = rem["lower"], rem["upper"]
+        ok = lo == -hi and all(v > 0 for v in hi.terms.values())
+        ctx.check(ok, "R-PADSIGN", f"{f.qualname}:padding widens the interval", f.loc(site["lower"]),
+                  f"z in [entrance - ({hi.key()}), exit + ({hi.key()}))",
+                  f"z is compared with entrance + ({lo.key()}) and exit + ({hi.key()}): the padding does not widen the interval "
+                  "on both sides, so atoms within the padding distance of a slice face are missing from the slice they lie in",
+                  key_detail="padsign")
+
+    _deferred.run(ctx, new, _inner_run_c09d)
+
+
+# ---- added after the mutation sweep: the species classes partition the atoms
+_inner_run_c09e = run
+
+
+def run(ctx) -> None:  # noqa: F811
+    import ast as _ast
+
+    from ..model import dotted as _dotted, norm_text as _nt, walk_no_nested as _walk
+    from ..rules import deferred as _deferred
+
+    ctx.rule("R-SPECIESMASK", "the integrators build the potential species by species: inside `for Z in "
+             "np.unique(X.numbers)` the atoms of a pass are selected by a comparison of X.numbers with Z, and the slicers "
+             "filter by `atomic_number` in the same way.  The classes partition the atoms — every atom contributes exactly "
+             "once, with the scattering factor of its own species — iff that comparison is an equality; `!=` puts an atom "
+             "into every class but its own, so the potential of a union of species is not the sum of their potentials")
+
+    def new():
+        n = 0
+        repo = ctx.repo
+        funcs = [f for f in repo.all_functions() if f.module.name in ("abtem.integrals", "abtem.slicing")]
+        for f in funcs:
+            k = 0
+            for lp in _walk(f.node):
+                keys: set[str] = set()
+                scope = None
+                if isinstance(lp, _ast.For) and isinstance(lp.target, _ast.Name) and isinstance(lp.iter, _ast.Call) and \
+                        (_dotted(lp.iter.func) or "").split(".")[-1] == "unique" and lp.iter.args and \
+                        (_dotted(lp.iter.args[0]) or "").endswith(".numbers"):
+                    keys, scope, src = {lp.target.id}, lp, _dotted(lp.iter.args[0])
+                elif lp is f.node and "atomic_number" in f.params and f.module.name == "abtem.slicing":
+                    keys, scope, src = {"atomic_number"}, f.node, None
+                if scope is None:
+                    continue
+                for c in _ast.walk(scope):
+                    if not (isinstance(c, _ast.Compare) and len(c.ops) == 1):
+                        continue
+                    sides = [c.left, c.comparators[0]]
+                    names = [s.id if isinstance(s, _ast.Name) else None for s in sides]
+                    nums = [(_dotted(s) or "").endswith(".numbers") for s in sides]
+                    if not ((names[0] in keys and nums[1]) or (names[1] in keys and nums[0])):
+                        continue
+                    k += 1
+                    n += 1
+                    ctx.check(isinstance(c.ops[0], _ast.Eq), "R-SPECIESMASK", f"{f.qualname}:species selection #{k}", f.loc(c),
+                              f"`{_nt(c)}` selects the atoms of one species",
+                              f"`{_nt(c)}` does not select the atoms *of* the species: every atom is put into the classes of "
+                              "the other species (or dropped when there is only one), so contributions are counted with the "
+                              "wrong scattering factor and the potential of a union is not the sum of the potentials",
+                              key_detail="mask")
+        ctx.require(n >= 4, f"R-SPECIESMASK found only {n} species selections")
+
+    _deferred.run(ctx, new, _inner_run_c09e)
